@@ -13,7 +13,7 @@ import (
 
 func init() {
 	register(&PropSpec{ID: "C16", Level: "other", Run: runC16,
-		Explanation: "Decides for all values of Join's size argument: (R-C16.1) every slice/index in Join whose bound derives from size is proved in range from dominating checks; (R-C16.2) in the bounded branch the map stored to Entries and the argument of the head scan whose result is stored to heads are built from the same SSA slice value, that value is a suffix (low bound only) of the linearisation, and the linearisation is computed after the unbounded merge's stores. Not covered: that the suffix is 'the newest n' for every DAG.",
+		Explanation: "Decides for all values of Join's size argument: (R-C16.1) every slice/index in Join whose bound derives from size is proved in range from dominating checks; (R-C16.2) in the bounded branch the map stored to Entries and the argument of the head scan whose result is stored to heads are built from the same SSA slice value, that value is a suffix (low bound only) of the linearisation, and the linearisation is computed after the unbounded merge's stores. R-C16.3 in its current form: every success return reached after the lock either knows size < 0 (an edge whose normalised comparison implies it) or has replaced the entry index by the truncated one — 0 is a bound; (R-C16.6) the list the truncated log is rebuilt from has at most size entries for every size ≥ 0. Not covered: that the suffix is 'the newest n' for every DAG.",
 		Assumptions: []string{"machine-integer overflow of the small bound expressions is ignored"},
 	})
 }
